@@ -202,6 +202,8 @@ def run_property(prop: str, tier: str, seed: int, replay: str | None = None) -> 
     if replay:
         with open(replay) as f:
             case = json.load(f)
+        if isinstance(case, dict) and "case" in case and "mech" in case:
+            case = case["case"]
         specs = [{"replay": case, "seed": seed, "tier": tier}]
     else:
         specs = mod.plan(tier, seed)
